@@ -1,12 +1,13 @@
 """C03 - resuming from a checkpoint is indistinguishable from never stopping.
 Spec: Session.tla (ChkOf, design-level checkpoint object), MC_Session (TLC, all histories), Trace_Session."""
 import vt
+import mpicommon
 from sessioncommon import run_session, histories, BUILDS, ACTIONS  # noqa: F401
 
 LEVEL = "model_checking"
 
 
-def run(chk, replay=None):
+def run_main(chk, replay=None):
     chk.cov["checker_cmd"] = "tlc MC_Session; tlc Trace_Session (TRACE=out/C03/trace.ndjson)"
     chk.cov["trusted_base"] = ["TLC", "interning of complete checkpoint texts (equal id <=> byte-identical text)"]
     chk.cov["rule"] = ("one case per history: for each configuration {PLAIN, VEGAS default / user grid, multi-channel default / user weights with a disabled "
@@ -32,6 +33,15 @@ def run(chk, replay=None):
         if r2.rc == 0:
             raise vt.MachineryError("binding self-test: corrupted trace accepted")
         chk.cov["binding_selftest"] = "text id of the last resumed iteration changed (event %d): rejected (matched %s)" % (i + 1, r2.matched)
+
+
+def run(chk, replay=None):
+    if mpicommon.is_mpi_replay(replay):
+        mpicommon.mpi_leg(chk, "C03:mpi", replay=replay)
+        return
+    run_main(chk, replay=replay)
+    if not replay and not chk.violations:
+        mpicommon.legs(chk, "C03:mpi", big=False)
 
 
 def replay(chk, path):
